@@ -206,7 +206,7 @@ MUTANTS = [
     ('c25-unprocessed', 'C25', IMPL, "chain(mempool.get('validated', []), mempool.get('applied', []), mempool.get('unprocessed', []))", "chain(mempool.get('validated', []), mempool.get('applied', []))", 'asynchronously injected (not yet classified) operations not counted as pending'),
     ('c25-noreset', 'C25', GROUP, '        self.context.reset()  # reset counter\n', '', 'inject no longer resets the cached counter (masked by the per-fill re-read unless counter= is used)'),
     ('c25-offbyone', 'C25', IMPL, "            self.counter = int(self.shell.contracts[key_hash]()['counter'])\n", "            self.counter = int(self.shell.contracts[key_hash]()['counter']) + (1 if self.shell.mempool.pending_operations().get('refused') else 0)\n", 'counter shifted when the mempool has refused operations of anyone'),
-    ('c24-firstonly', 'C24', GROUP, "'fee': lambda i, x: str(default_fee(x, gas_limit, minimal_nanotez_per_gas_unit)),", "'fee': lambda i, x: str(default_fee(x, gas_limit, minimal_nanotez_per_gas_unit) if i == 0 else 0),", 'revert fix: fee on first content only'),
+    ('c24-firstonly', 'C24', GROUP, "'fee': lambda i, x: str(default_fee(x, gas_limit, minimal_nanotez_per_gas_unit, constants)),", "'fee': lambda i, x: str(default_fee(x, gas_limit, minimal_nanotez_per_gas_unit, constants) if i == 0 else 0),", 'revert fix: fee on first content only'),
     ('c24-tz4', 'C24', FEES, "return 96 if source.startswith('tz4') else 64", 'return 64', 'revert fix: tz4 signature size'),
     ('c24-reserve0', 'C24', FEES, 'reserve=10,', 'reserve=0,', 'safety reserve dropped'),
     ('c24-minfee', 'C24', FEES, 'MINIMAL_FEES = 100', 'MINIMAL_FEES = 50', 'minimal fee constant halved'),
